@@ -16,8 +16,10 @@ Line-protocol driver for C13 (fields separated by single spaces; byte strings in
   KEC data                   Keccak-256                                   -> <hex32>
   DBRESET | DBNEW            fresh trie.Database (DBNEW keeps the disk)           -> ok
   DBINS h size k,k,...       db.insert of a node with these hash children         -> ok
-  DBREF h | DBDEREF h | DBCAP n | DBCOMMIT h                                      -> ok
-  DBDUMP                     mem=<n>:<digest> meta=<n>:<digest> disk=<n>:<digest>
+  DBREF h | DBDEREF h                                                             -> ok
+  DBCAP n | DBCOMMIT h       -> ok <n>:<digest of the node hashes in the order they are written>
+  DBDUMP                     mem=<n>:<digest> meta=<n>:<digest> disk=<n>:<digest> ordered-closed=<bool>
+                             (the last field evaluates the hypotheses of db_commit_children_first on the state)
   DBDUMPFULL                 the same in full text
 -/
 import YouVerif.C13.Model
@@ -75,7 +77,10 @@ def digest (s : String) : String := (hexOfList (K s.toUTF8.toList)).take 16 |>.t
 def dbDump (s : Db.State) (full : Bool) : String :=
   let (a, b, c) := dbText s
   if full then s!"mem={a} meta={b} disk={c}"
-  else s!"mem={s.mem.length}:{digest a} meta={s.roots.length}:{digest b} disk={s.disk.length}:{digest c}"
+  else s!"mem={s.mem.length}:{digest a} meta={s.roots.length}:{digest b} disk={s.disk.length}:{digest c} ordered-closed={Db.orderedClosed s}"
+
+def orderDigest (l : List (List UInt8)) : String :=
+  s!"{l.length}:{digest (String.intercalate "," (l.map hexOfList))}"
 
 def dbStep (s : Db.State) : List String → Option (Db.State × String)
   | ["DBRESET"] => some ({}, "ok")
@@ -86,8 +91,8 @@ def dbStep (s : Db.State) : List String → Option (Db.State × String)
     | _, _, _ => none
   | ["DBREF", h] => (hx h).map fun h => (Db.reference s h, "ok")
   | ["DBDEREF", h] => (hx h).map fun h => (Db.dereference s h, "ok")
-  | ["DBCAP", n] => (nat? n).map fun n => (Db.cap s n, "ok")
-  | ["DBCOMMIT", h] => (hx h).map fun h => (Db.commit s h, "ok")
+  | ["DBCAP", n] => (nat? n).map fun n => (Db.cap s n, "ok " ++ orderDigest (Db.capOrder s n))
+  | ["DBCOMMIT", h] => (hx h).map fun h => (Db.commit s h, "ok " ++ orderDigest (Db.commitOrder s h))
   | ["DBDUMP"] => some (s, dbDump s false)
   | ["DBDUMPFULL"] => some (s, dbDump s true)
   | _ => none
